@@ -65,6 +65,48 @@ def direct_tests(ctx):
         shutil.rmtree(d, ignore_errors=True)
 
 
+def surviving_subscribers(ctx):
+    """a subscription made through the public API stays in force while players for OTHER versions and games are constructed (each constructs its own
+    controller, which subscribes its own keys): every later packet with a subscriber still invokes it exactly once"""
+    from replay_unpack.core.entity import Entity
+    from replay_unpack.clients import wows, wot
+    from tools import battle
+    rng = ctx.rng
+    ds = synth.sweep_defset(elem=('u', 1))
+    ds['ents']['Thing']['client_methods'] = [('named', [('amount', ('u', 2)), ('who', ('u', 1))], None, True)]
+    d = synth.write_defset(ds, rng)
+    tabs = (Entity._methods_subscriptions, Entity._properties_subscriptions, Entity._nested_properties_subscription)
+    saved = [dict(t) for t in tabs]
+    try:
+        pl = synth.make_player('wows', d); view = synth.LibView(pl)
+        calls = []
+        Entity.subscribe_method_call('Thing', 'named', lambda e, *a, **kw: calls.append(('named', a, tuple(sorted(kw.items())))))
+        Entity.subscribe_property_change('Thing', 'pad', lambda e, v: calls.append(('pad', v)))
+        wv = battle.wows_versions(); built = []
+        for v in ('12_6_0', '0_10_0', '12_6_0', '13_2_0'):
+            if v in wv: wows.ReplayPlayer(v.split('_')); built.append('wows ' + v)
+        try: wot.ReplayPlayer('1.8.0'); built.append('wot 1.8.0')
+        except Exception: pass
+        import gc; gc.collect()
+        h = synth.History(rng, 'wows', view); h.base_player()
+        eid = 500; names = [n for n, _ in view.exposed('Thing')]; ms = [m[0] for m in view.methods('Thing')]
+        h.emit('EntityCreate', struct.pack('<ihii', eid, view.type_index('Thing'), 3, 4) + bytes(24) + synth.binstream(b'\x00'), 'create')
+        for k in range(3):
+            h.emit('EntityMethod', struct.pack('<II', eid, ms.index('named')) + synth.binstream(struct.pack('<HB', 100 + k, k)), 'call')
+            h.emit('EntityProperty', struct.pack('<II', eid, names.index('pad')) + synth.binstream(struct.pack('<I', k)), 'update')
+        with common.time_limit(20): pl.play(h.stream(), True)
+        want = []
+        for k in range(3): want += [('named', (), (('amount', 100 + k), ('who', k))), ('pad', k)]
+        ctx.case(('surviving-subscriber',), n=6); ctx.count('surviving-subscriber-packets', 6)
+        if calls != want:
+            ctx.violation(dict(kind='direct', clause='every packet with a subscriber invokes it exactly once (a subscription made earlier in the process stays in force)',
+                               players_constructed_between_subscribe_and_play=built, expected_calls=repr(want)[:400], got_calls=repr(calls)[:400],
+                               how='Entity.subscribe_method_call / subscribe_property_change for a synthetic entity type; construct the listed real players; then play three calls and three updates on a player built BEFORE them'))
+    finally:
+        for t, sv in zip(tabs, saved): t.clear(); t.update(sv)
+        shutil.rmtree(d, ignore_errors=True)
+
+
 def raising_subscribers(ctx):
     """subscribers that ACCEPT the call and then fail inside their own body (TypeError, KeyError, ValueError): however the library treats the
     failure (lenient mode goes on with the next packet), each packet still invokes each subscriber exactly once"""
@@ -184,6 +226,7 @@ def run(ctx):
                              fault_rate=0.0, strict_too=True, garbage_w=12)
     direct_tests(ctx)
     raising_subscribers(ctx)
+    surviving_subscribers(ctx)
     late_subscription(ctx)
     recordings.payload_check(ctx, 'C07', quick_n=3)
 
